@@ -949,18 +949,27 @@ def collect_reports(plan, obs, us):
                                                  'as unsure for copied text')
                     res[ui].append(r)
                     nreps += 1
+            last_title = None
+            last_row = None
             for n, cell in part['overlaps']:
                 if not 1 <= n <= len(lines):
                     return 'overlap row number outside file'
-                last_title = None
+                # a row of its own continues a message only if it is the next
+                # line (the title names the first line of a message, so another
+                # message with the same title cannot start there)
+                if last_row is not None and n != last_row + 1:
+                    last_title = None
                 for title, hl, before in shellscen.cell_spans(cell):
                     w = word_of(title)
                     if title == last_title and res[ui] and \
                             res[ui][-1].get('overlap'):
-                        # next line of a multi-line overlapping message
+                        # next line of a multi-line overlapping message (in
+                        # the same cell, or in a numbered row of its own)
                         res[ui][-1]['length'] += 1 + len(hl)
+                        last_row = n
                         continue
                     last_title = title
+                    last_row = n
                     # an overlapping message is listed separately with its
                     # line number only (a multi-line one is one span here, its
                     # line breaks included); locate it through the line number
